@@ -72,6 +72,14 @@ def analyse_method(fn: ast.FunctionDef, methods: set) -> MethodFacts:
                 cbvars[a.targets[0].id] = at
     if fn.name == "_handle_on_message":
         cbvars["callback"] = "on_message"      # per-topic callbacks
+    # local variables bound to the network thread: `thread = self._thread`
+    thvars = set()
+    for a in ast.walk(fn):
+        if isinstance(a, ast.Assign) and len(a.targets) == 1 and isinstance(a.targets[0], ast.Name) and self_attr(a.value) == "_thread":
+            thvars.add(a.targets[0].id)
+
+    def is_thread(e):
+        return self_attr(e) == "_thread" or (isinstance(e, ast.Name) and e.id in thvars)
 
     def visit_expr(e, ctx):
         for n in ast.walk(e):
@@ -83,7 +91,7 @@ def analyse_method(fn: ast.FunctionDef, methods: set) -> MethodFacts:
                     mf.sites.append((at, ctx, n.lineno))
                 elif isinstance(n.func, ast.Name) and n.func.id in cbvars:
                     mf.sites.append((cbvars[n.func.id], ctx, n.lineno))
-                elif isinstance(n.func, ast.Attribute) and n.func.attr == "join" and self_attr(n.func.value) == "_thread":
+                elif isinstance(n.func, ast.Attribute) and n.func.attr == "join" and is_thread(n.func.value):
                     mf.acquires.append(("<thread-join>", "blocking", ctx))
                 elif isinstance(n.func, ast.Attribute) and n.func.attr == "acquire":
                     l = self_attr(n.func.value)
@@ -102,11 +110,9 @@ def analyse_method(fn: ast.FunctionDef, methods: set) -> MethodFacts:
     def guard_of(test):
         """`if on_connect:` / `if self.on_log is not None:` -> callback name;
         `if threading.current_thread() != self._thread:` -> 'not-loop-thread'"""
-        try:
-            if ast.unparse(test) == "threading.current_thread() != self._thread":
-                return "not-loop-thread"
-        except Exception:  # noqa: BLE001
-            pass
+        if isinstance(test, ast.Compare) and len(test.ops) == 1 and isinstance(test.ops[0], ast.NotEq) and \
+                ast.unparse(test.left) == "threading.current_thread()" and is_thread(test.comparators[0]):
+            return "not-loop-thread"
         if isinstance(test, ast.Name) and test.id in cbvars:
             return cbvars[test.id]
         if isinstance(test, ast.Compare) and len(test.ops) == 1 and isinstance(test.ops[0], ast.IsNot) and \
@@ -241,3 +247,209 @@ if __name__ == "__main__":
         print(api)
         for a in acq:
             print("   ", a)
+
+
+# ---------------------------------------------------------------------- C07: lock order, guarded accesses, shapes
+GUARD_OF = {"_out_messages": "_out_message_mutex", "_inflight_messages": "_out_message_mutex",
+            "_in_messages": "_in_message_mutex", "_last_mid": "_mid_generate_mutex"}
+
+
+def _class(path=None):
+    path = path or os.path.join(REPO_SRC, "paho", "mqtt", "client.py")
+    tree = ast.parse(open(path, encoding="utf-8").read())
+    cls = next(n for n in tree.body if isinstance(n, ast.ClassDef) and n.name == "Client")
+    fns = {n.name: n for n in cls.body if isinstance(n, ast.FunctionDef)}
+    return fns
+
+
+def _entry_contexts(fns):
+    methods = {k for k in fns if k not in CALLBACKS}
+    facts = {k: analyse_method(fns[k], methods) for k in methods}
+    entry = {k: set() for k in methods}
+    work = []
+    for e in ENTRY:
+        if e in methods:
+            entry[e].add(((), (), ()))
+            work.append(e)
+    while work:
+        m = work.pop()
+        for (h0, f0, g0) in list(entry[m]):
+            for callee, c in facts[m].calls:
+                key = (tuple(sorted(set(h0) | set(c.held))), tuple(sorted((set(f0) | set(c.free)) - set(c.held))),
+                       tuple(sorted(set(g0) | set(c.guards))))
+                if key not in entry[callee] and len(entry[callee]) < 400:
+                    entry[callee].add(key)
+                    work.append(callee)
+    return methods, facts, entry
+
+
+def lock_edges(path=None):
+    """(held, acquired) pairs over every blocking acquisition reachable from the public entry points (user callbacks
+    calling back into the API are C18's subject and are not followed), plus (threadJoin, l) for every lock the network
+    thread can take: a thread that join()s the network thread waits for everything the network thread waits for."""
+    fns = _class(path)
+    methods, facts, entry = _entry_contexts(fns)
+    edges = {}
+    for m, mf in facts.items():
+        for l, mode, c in mf.acquires:
+            if mode != "blocking":
+                continue
+            for (h0, f0, g0) in entry[m] or {((), (), ())}:
+                held = set(h0) | set(c.held)
+                if held & (set(f0) | set(c.free)):
+                    continue
+                for h in held:
+                    edges.setdefault((h, l), set()).add(m)
+    # locks reachable from _thread_main
+    seen, stack, reach = set(), ["_thread_main"], set()
+    while stack:
+        m = stack.pop()
+        if m in seen or m not in facts:
+            continue
+        seen.add(m)
+        for l, mode, c in facts[m].acquires:
+            if mode == "blocking" and l != "<thread-join>":
+                reach.add(l)
+        for callee, c in facts[m].calls:
+            stack.append(callee)
+    for l in sorted(reach):
+        edges.setdefault(("<thread-join>", l), set()).add("_thread_main")
+    return {k: sorted(v) for k, v in edges.items()}
+
+
+def lock_ranks(edges):
+    """longest-path layering of the strict part of the order (self edges are reentrancy, checked separately);
+    None if the relation has a cycle"""
+    nodes = set(LOCKS) | {"<thread-join>"}
+    succ = {n: set() for n in nodes}
+    for (h, l) in edges:
+        if h != l:
+            succ[h].add(l)
+    rank = {}
+    state = {}
+
+    def depth(n):
+        if state.get(n) == 1:
+            raise ValueError("cycle")
+        if n in rank:
+            return rank[n]
+        state[n] = 1
+        # rank = longest chain of predecessors: compute via successors reversed
+        r = 0
+        for p in nodes:
+            if n in succ[p]:
+                r = max(r, depth(p) + 1)
+        state[n] = 2
+        rank[n] = r
+        return r
+    try:
+        for n in sorted(nodes):
+            depth(n)
+    except ValueError:
+        return None
+    return rank
+
+
+def shared_accesses(path=None):
+    """every access to a lock-protected attribute outside __init__: (method, line, attr, is_len_read, guarded).
+    guarded = the protecting lock is lexically held, or held in every context in which the method can be entered."""
+    fns = _class(path)
+    methods, facts, entry = _entry_contexts(fns)
+    res = []
+
+    def visit(node, held, fn, parent_len):
+        if isinstance(node, ast.With):
+            h = list(held)
+            for it in node.items:
+                a = self_attr(it.context_expr)
+                if a in LOCKS:
+                    h.append(a)
+                else:
+                    visit(it.context_expr, held, fn, False)
+            for st in node.body:
+                visit(st, h, fn, False)
+            return
+        if isinstance(node, (ast.FunctionDef, ast.ClassDef)) and node is not fn:
+            return
+        a = self_attr(node) if isinstance(node, ast.Attribute) else None
+        if a in GUARD_OF:
+            lock = GUARD_OF[a]
+            ctxs = entry.get(fn.name) or set()
+            must = bool(ctxs) and all(lock in h0 for (h0, _, _) in ctxs)
+            res.append((fn.name, node.lineno, a, parent_len, lock in held or must))
+        is_len = isinstance(node, ast.Call) and isinstance(node.func, ast.Name) and node.func.id == "len"
+        for ch in ast.iter_child_nodes(node):
+            visit(ch, held, fn, is_len and ch in getattr(node, "args", []))
+    for name, f in fns.items():
+        if name == "__init__":
+            continue
+        for st in f.body:
+            visit(st, [], f, False)
+    return res
+
+
+def thread_shapes(path=None):
+    """ordering facts the wake-up / queue model (Paho.Model.Threads) is instantiated with"""
+    fns = _class(path)
+    out = {}
+    # _mid_generate: `with mutex: self._last_mid += 1; if self._last_mid == W: self._last_mid = R; return self._last_mid`
+    f = fns["_mid_generate"]
+    body = [ast.unparse(s) for s in f.body]
+    out["midGenUnderLock"] = len(f.body) == 1 and isinstance(f.body[0], ast.With) and \
+        self_attr(f.body[0].items[0].context_expr) == "_mid_generate_mutex"
+    inner = f.body[0].body if isinstance(f.body[0], ast.With) else f.body
+    iu = [ast.unparse(s) for s in inner]
+    out["midGenShapeOk"] = len(iu) == 3 and iu[0] == "self._last_mid += 1" and iu[1].startswith("if self._last_mid == ") and \
+        "self._last_mid = " in iu[1] and iu[2] == "return self._last_mid"
+    # _packet_queue: append, then the wake byte, then the direct write only when there is no network thread
+    f = fns["_packet_queue"]
+    idx = {}
+    for i, s in enumerate(f.body):
+        u = ast.unparse(s)
+        if u == "self._out_packet.append(mpkt)":
+            idx["append"] = i
+        elif u.startswith("if self._sockpairW is not None:") and "self._sockpairW.send(sockpair_data)" in u:
+            idx["wake"] = i
+        elif u.startswith("if self._thread is None and self._on_socket_register_write is None:") and "return self.loop_write()" in u:
+            idx["direct"] = i
+    out["wakeAfterAppend"] = "append" in idx and "wake" in idx and idx["append"] < idx["wake"]
+    out["directWriteOnlyWithoutThread"] = "direct" in idx and "wake" in idx and idx["wake"] < idx["direct"] and \
+        sum(1 for n in ast.walk(f) if isinstance(n, ast.Call) and ast.unparse(n.func) == "self.loop_write") == 1
+    # _packet_write: the only removal is popleft(); every re-queue is appendleft(); nothing else touches the deque
+    f = fns["_packet_write"]
+    ops = [n.func.attr for n in ast.walk(f) if isinstance(n, ast.Call) and isinstance(n.func, ast.Attribute) and
+           self_attr(n.func.value) == "_out_packet"]
+    out["pushbackFront"] = bool(ops) and set(ops) == {"popleft", "appendleft"} and ops.count("popleft") == 1
+    # all other deque mutations in the class: append in _packet_queue, clear in reconnect
+    muts = []
+    for name, g in fns.items():
+        for n in ast.walk(g):
+            if isinstance(n, ast.Call) and isinstance(n.func, ast.Attribute) and self_attr(n.func.value) == "_out_packet":
+                muts.append((name, n.func.attr))
+    out["dequeMutators"] = sorted(set(muts))
+    out["dequeMutatorsOk"] = sorted(set(muts)) == sorted({("_packet_queue", "append"), ("_packet_write", "popleft"),
+                                                          ("_packet_write", "appendleft"), ("reconnect", "clear")})
+    # _loop: want_write() decides wlist BEFORE select; pipe readable => socket forced into the write set, pipe drained,
+    # and all that BEFORE `if self._sock in socklist[1]: loop_write()`
+    f = fns["_loop"]
+    pos = {}
+    for i, s in enumerate(f.body):
+        u = ast.unparse(s)
+        if u.startswith("if self.want_write():") and "wlist = [self._sock]" in u:
+            pos["wlist"] = i
+        elif "select.select(rlist, wlist, [], timeout)" in u:
+            pos["select"] = i
+        elif u.startswith("if self._sockpairR and self._sockpairR in socklist[0]:") and "socklist[1].insert(0, self._sock)" in u \
+                and "self._sockpairR.recv(" in u:
+            pos["drain"] = i
+        elif u.startswith("if self._sock in socklist[1]:") and "self.loop_write()" in u:
+            pos["write"] = i
+        elif u.startswith("if self._sockpairR is None:") and "rlist = [self._sock, self._sockpairR]" in u:
+            pos["rlist"] = i
+    out["loopOrderOk"] = all(k in pos for k in ("wlist", "select", "drain", "write", "rlist")) and \
+        pos["wlist"] < pos["select"] and pos["rlist"] < pos["select"] < pos["drain"] < pos["write"]
+    # _thread_main clears _thread only after loop_forever() has returned; loop_start sets it before start()
+    f = fns["_thread_main"]
+    u = ast.unparse(f)
+    out["threadClearedAtExit"] = "finally:\n        self._thread = None" in u and "self.loop_forever(" in u
+    return out
